@@ -210,7 +210,7 @@ theorem source_decision_logic : CV.Facts.logicC01 = [
   "clover.CriteriaNormalizeVisitor.VisitNotCriteria: { res := c.C.Accept(v) if res == nil { return nil } return &query.NotCriteria{C: res.(query.Criteria)} }", 
   "clover.CriteriaNormalizeVisitor.VisitUnaryCriteria: { normValue := c.Value if c.OpType != query.FunctionOp { var err error normValue, err = normalizeOperand(c.Value, c.OpType == query.InOp || c.OpType == query.ContainsOp) if err != nil { v.err = err return nil } } return &query.UnaryCriteria{ Field: c.Field, OpType: c.OpType, Value: normValue, } }", 
   "clover.DB.FindAll: { q, err := normalizeCriteria(q) if err != nil { return nil, err } docs := make([]*d.Document, 0) err = db.IterateDocs(q, func(doc *d.Document) error { docs = append(docs, doc) return nil }) return docs, err }", 
-  "clover.DB.IterateDocs: { tx, err := db.store.Begin(false) if err != nil { return err } defer tx.Rollback() return db.iterateDocs(tx, q, consumer) }", 
+  "clover.DB.IterateDocs: { q, err := normalizeCriteria(q) if err != nil { return err } tx, err := db.store.Begin(false) if err != nil { return err } defer tx.Rollback() return db.iterateDocs(tx, q, consumer) }", 
   "clover.DB.iterateDocs: { meta, err := db.getCollectionMeta(q.Collection(), tx) if err != nil { return err } nd := buildQueryPlan(q, db.getIndexes(tx, q.Collection(), meta), &consumerNode{consumer: consumer}) return execPlan(nd, tx) }", 
   "clover.iterNode.iterateFullCollection: { prefix := []byte(getDocumentKeyPrefix(nd.collection)) return iteratePrefix(prefix, tx, func(item store.Item) error { doc, err := d.Decode(item.Value) if err != nil { return err } if nd.filter == nil || nd.filter.Satisfy(doc) { return nd.CallNext(doc) } return nil }) }", 
   "clover.iterNode.iterateIndex: { iterFunc := func(docId string) error { doc, err := getDocumentById(nd.collection, docId, tx) if err != nil || doc == nil { return err } if nd.filter == nil || nd.filter.Satisfy(doc) { return nd.CallNext(doc) } return nil } err := nd.idxQuery.Run(iterFunc) return err }", 
